@@ -307,7 +307,8 @@ def check_world(ctx, world, results):
         for c in clusters:
             ctx.count("op:extent")
             wf = ring.wellformed(c.location, length, span_like=True)
-            facts_c = dict(facts0, core=str(c.core_location), extent=str(c.location))
+            facts_c = dict(facts0, core=str(c.core_location), extent=str(c.location),
+                           core_len=ring.total_len(ring.span(c.core_location, wrap)))
             if wf:
                 ctx.violate("extent-wellformed:" + wf, facts_c, world)
                 continue
@@ -572,8 +573,9 @@ def _c03_superior_partial_cover(clause, facts):
 def _c03_extent_of_full_ring_core(clause, facts):
     """ a core covering all but <= 1 base of a circular record gets the 'meet in the middle' extent
         [mid:L)+[0:mid-1), which is one base short and placed elsewhere, so it does not contain its core.
-        Must not hide: extents not containing their core for any smaller core. """
-    return clause == "extent-saturated-bounds" and facts.get("circular") is True \
+        With the core's gap at the very start of the record mid is 1 and the second piece is the empty [0:0).
+        Must not hide: extents not containing their core, or with an empty piece, for any smaller core. """
+    return clause in ("extent-saturated-bounds", "extent-wellformed:empty-part") and facts.get("circular") is True \
         and facts.get("core_len", 0) >= facts.get("L", 1 << 60) - 1
 
 
